@@ -210,6 +210,13 @@ func (s *shrinker) simplify() bool {
 		}
 		return false
 	})
+	apply(func(p *Plan) bool {
+		if p.Sim.PreemptEvery != 0 {
+			p.Sim.PreemptEvery, p.Sim.PreemptNs = 0, 0
+			return true
+		}
+		return false
+	})
 	// drop unused keys from the end
 	apply(func(p *Plan) bool {
 		maxKey := 0
